@@ -142,7 +142,7 @@ def has_body_collision(rec):
 def known_match(case, fail, finding):
     if finding["id"] == "C01-K1":
         # save raises because a child is named like a dataset its parent's class writes into its own group
-        return "save_failed" in fail and fail["save_failed"].get("err") == "error" and has_body_collision(case["trees"]["T"])
+        return "save_failed" in fail and "err" in fail["save_failed"] and has_body_collision(case["trees"]["T"])
     return False
 
 
